@@ -253,7 +253,12 @@ class Runner:
         r = Rng(self.seed, "c10", "files", idx)
         h = r.choice([0] + hashes) if hashes else 0
         pool = [p for p in self.order if oracle.file_route_ok(self.programs[p])]
-        if r.chance(0.6):
+        cross_file = {"class_attrs", "dynamic_attrs"}
+        if idx % 4 == 0 and len([p for p in pool if cross_file & set(self.family_of[p])]) >= 4:
+            # every fourth group: the families that the end-of-run, cross-file passes look at
+            # (attribute reads/writes per class over all files of the invocation)
+            pool = [p for p in pool if cross_file & set(self.family_of[p])]
+        elif r.chance(0.6):
             # dense group: files from one or two families, so that same-named classes/functions with
             # different meaning meet in one invocation
             fams = sorted({f for p in pool for f in self.family_of[p] if not f.startswith("snippet:")})
